@@ -184,7 +184,7 @@ pub fn check_case(entries: &[En], stream: bool, base: &Path, id: u64, st: &mut S
     check_case_layout(entries, stream, base, id, st, order, part, 0)
 }
 
-pub const LAYOUTS: [&str; 10] = ["plain", "methods stored/deflate/bzip2/zstd by position", "data descriptors", "100 bytes of prepended data", "DOS made-by with DOS attributes", "forced ZIP64 fields and end records", "central directory in reverse order + gaps", "written by the crate's own ZipWriter", "central directory in reverse order, contiguous (streamable)", "central directory rotated by two records (streamable)"];
+pub const LAYOUTS: [&str; 11] = ["plain", "methods stored/deflate/bzip2/zstd by position", "data descriptors", "100 bytes of prepended data", "DOS made-by with DOS attributes", "forced ZIP64 fields and end records", "central directory in reverse order + gaps", "written by the crate's own ZipWriter", "central directory in reverse order, contiguous (streamable)", "central directory rotated by two records (streamable)", "Unix made-by with DOS attribute bits in the low byte as well (read-only + archive on files, directory + read-only on directories): the recorded Unix mode stands"];
 /// added to a layout number: the target directory already holds a longer file (mode 0600) at every file path of the archive
 pub const PREPOPULATED: u8 = 16;
 /// added to a layout number: how the caller spells the target directory it passes to extract() - through a symbolic link to
@@ -230,6 +230,11 @@ fn bytes_for(entries: &[En], layout: u8) -> Vec<u8> {
             spec.gap_before_cd = 7;
             for e in spec.entries.iter_mut().skip(1) {
                 e.gap_before = 3;
+            }
+        }
+        10 => {
+            for e in spec.entries.iter_mut() {
+                e.ext_attr |= if e.name.ends_with(b"/") { 0x11 } else { 0x21 };
             }
         }
         8 => spec.cd_order = Some((0..n).rev().collect()),
@@ -857,15 +862,15 @@ pub fn run(args: &Args) -> i32 {
     }
     permute(&mut vec![], tree.len(), &mut perms);
     let (tree_r, perms_r) = (&tree, &perms);
-    let s = par_for(perms.len() as u64 * 10 * 2 * 2, 4, |t, st| {
+    let s = par_for(perms.len() as u64 * 11 * 2 * 2, 4, |t, st| {
         let stream = t % 2 == 1;
-        let layout = ((t / 2) % 10) as u8;
-        let prepop = (t / 20) % 2 == 1;
+        let layout = ((t / 2) % 11) as u8;
+        let prepop = (t / 22) % 2 == 1;
         // data descriptors, prepended data and a gapped directory are not streamable by construction
         if stream && matches!(layout, 2 | 3 | 6) {
             return;
         }
-        let es: Vec<En> = perms_r[(t / 40) as usize].iter().map(|i| tree_r[*i].clone()).collect();
+        let es: Vec<En> = perms_r[(t / 44) as usize].iter().map(|i| tree_r[*i].clone()).collect();
         check_case_layout(&es, stream, base_r, (4 << 40) + t, st, (4 << 40) + t, "layouts", layout | if prepop { PREPOPULATED } else { 0 });
     });
     ctx.stats.merge(s);
